@@ -214,4 +214,139 @@ theorem scanBack_spec (T : Table) : ∀ (back : List Nat) (q r : Nat),
         · rw [h1]; congr 1; omega
         · simp [runT, hd, h2]
 
+/-! ### the window loop -/
+
+theorem back_getElem? (t : List Nat) (window m k : Nat) (hw : m ≤ window) (hn : window ≤ t.length) (hk : k < m) :
+    (((t.take window).reverse).take m)[k]? = t[window - 1 - k]? := by
+  rw [List.getElem?_take_of_lt hk]
+  have hl : (t.take window).length = window := by simp; omega
+  rw [List.getElem?_reverse (by omega), hl, List.getElem?_take_of_lt (by omega)]
+
+theorem back_length (t : List Nat) (window m : Nat) (hw : m ≤ window) (hn : window ≤ t.length) :
+    (((t.take window).reverse).take m).length = m := by
+  simp; omega
+
+/-- an occurrence that covers the last `l+1` symbols of the window makes them a (reversed) factor of `p` -/
+theorem covered_factor (p t : List Nat) (window l s : Nat) (hw : p.length ≤ window) (hn : window ≤ t.length)
+    (hl : l < p.length) (h1 : window - p.length ≤ s) (h2 : s + (l + 1) ≤ window) (hocc : OccursAt p t s) :
+    (((t.take window).reverse).take p.length).take (l + 1) =
+      ((p.drop (window - (l + 1) - s)).take (l + 1)).reverse := by
+  rw [occursAt_iff_idx] at hocc
+  apply List.ext_getElem?
+  intro k
+  rcases Nat.lt_or_ge k (l + 1) with hk | hk
+  · rw [List.getElem?_take_of_lt hk, back_getElem? t window p.length k hw hn (by omega)]
+    have hlen : ((p.drop (window - (l + 1) - s)).take (l + 1)).length = l + 1 := by simp; omega
+    rw [List.getElem?_reverse (by omega), hlen, List.getElem?_take_of_lt (by omega), List.getElem?_drop]
+    have := hocc.2 (window - 1 - k - s) (by omega)
+    have e1 : s + (window - 1 - k - s) = window - 1 - k := by omega
+    have e2 : window - (l + 1) - s + (l + 1 - 1 - k) = window - 1 - k - s := by omega
+    rw [e1] at this
+    rw [e2, this]
+  · have hlen : ((p.drop (window - (l + 1) - s)).take (l + 1)).reverse.length = l + 1 := by simp; omega
+    rw [List.getElem?_eq_none (by simp; omega), List.getElem?_eq_none (by omega)]
+
+theorem search_spec (p t : List Nat) (T : Table) (hp : 0 < p.length) (hC : Complete T p)
+    (hM : Monotone T p.reverse) :
+    ∀ (fuel window : Nat), p.length ≤ window → t.length + 1 ≤ window + fuel →
+      (∀ s, s ∈ search T p.length t fuel window ↔ (window - p.length ≤ s ∧ OccursAt p t s)) ∧
+      (search T p.length t fuel window).Pairwise (· < ·) := by
+  intro fuel
+  induction fuel with
+  | zero =>
+    intro window hw hf
+    simp only [search, List.not_mem_nil, false_iff, List.Pairwise.nil, and_true]
+    rintro s ⟨h1, h2, _⟩; omega
+  | succ fuel ih =>
+    intro window hw hf
+    simp only [search]
+    by_cases hn : window ≤ t.length
+    · simp only [hn, if_true]
+      have hbl := back_length t window p.length hw hn
+      -- no occurrence in a range all of whose members would cover a rejected suffix of the window
+      have hrej : ∀ l, l < p.length →
+          runT T 0 ((((t.take window).reverse).take p.length).take (l + 1)) = none →
+          ∀ s, window - p.length ≤ s → s + (l + 1) ≤ window → ¬ OccursAt p t s := by
+        intro l hl hr s h1 h2 hocc
+        rw [covered_factor p t window l s hw hn hl h1 h2 hocc] at hr
+        exact hC (window - (l + 1) - s) (l + 1) (by omega) hr
+      rcases scanBack_spec T (((t.take window).reverse).take p.length) 0 0 with
+        ⟨q', hs, hr⟩ | ⟨l, hl, hs, hr⟩
+      · -- all m symbols accepted: the window is an occurrence
+        rw [hs]
+        simp only [Option.isSome_some, if_true, hbl]
+        have hlow := runT_lower T p.reverse hM _ 0 q' hr
+        simp only [hbl, List.length_reverse] at hlow
+        have hq : q' = 0 + (((t.take window).reverse).take p.length).length := by rw [hbl]; omega
+        have htight := runT_tight T p.reverse hM _ 0 q' hr hq
+        have hback : ((t.take window).reverse).take p.length = p.reverse := by
+          apply List.ext_getElem?
+          intro k
+          rcases Nat.lt_or_ge k p.length with hk | hk
+          · have := htight k (by rw [hbl]; exact hk)
+            simpa using this
+          · rw [List.getElem?_eq_none (by omega), List.getElem?_eq_none (by simpa using hk)]
+        have hocc : OccursAt p t (window - p.length) := by
+          rw [occursAt_iff_idx]
+          refine ⟨by omega, fun k hk => ?_⟩
+          have h1 := back_getElem? t window p.length (p.length - 1 - k) hw hn (by omega)
+          rw [hback, List.getElem?_reverse (by omega)] at h1
+          have e1 : p.length - 1 - (p.length - 1 - k) = k := by omega
+          have e2 : window - 1 - (p.length - 1 - k) = window - p.length + k := by omega
+          rw [e1, e2] at h1
+          exact h1.symm
+        have e : window + (p.length + 1 - (0 + p.length)) = window + 1 := by omega
+        rw [e]
+        obtain ⟨ihm, ihs⟩ := ih (window + 1) (by omega) (by omega)
+        refine ⟨?_, ?_⟩
+        · intro s
+          simp only [List.mem_cons, ihm]
+          constructor
+          · rintro (rfl | ⟨h1, h2⟩)
+            · exact ⟨Nat.le_refl _, hocc⟩
+            · exact ⟨by omega, h2⟩
+          · rintro ⟨h1, h2⟩
+            by_cases hs' : s = window - p.length
+            · left; exact hs'
+            · right; exact ⟨by omega, h2⟩
+        · rw [List.pairwise_cons]
+          refine ⟨?_, ihs⟩
+          intro s hs'
+          have := ((ihm s).mp hs').1
+          omega
+      · -- rejected after l+1 symbols
+        rw [hs]
+        simp only [Option.isSome_none, Bool.false_eq_true, if_false]
+        rw [hbl] at hl
+        have e : window + (p.length + 1 - (0 + l + 1)) = window + (p.length - l) := by omega
+        rw [e]
+        obtain ⟨ihm, ihs⟩ := ih (window + (p.length - l)) (by omega) (by omega)
+        refine ⟨?_, ihs⟩
+        intro s
+        rw [ihm]
+        constructor
+        · rintro ⟨h1, h2⟩; exact ⟨by omega, h2⟩
+        · rintro ⟨h1, h2⟩
+          refine ⟨?_, h2⟩
+          rcases Nat.lt_or_ge s (window + (p.length - l) - p.length) with h | h
+          · exact absurd h2 (hrej l hl hr s h1 (by omega))
+          · exact h
+    · simp only [hn, if_false, List.not_mem_nil, false_iff, List.Pairwise.nil, and_true]
+      rintro s ⟨h1, h2, _⟩; omega
+
+/-- **BOM search is exact on every text** for every table that is `Complete` and `Monotone` for the pattern
+(both decidable; the driver checks them on the table built by the model for each tested pattern). -/
+theorem findAll_eq_occurrences_of_table (p t : List Nat) (hp : 0 < p.length)
+    (hC : completeB (build p) p = true) (hM : monotoneB (build p) p.reverse = true) :
+    findAll p t = occurrences p t := by
+  have hC' := (completeB_iff _ _).mp hC
+  have hM' := monotoneB_sound _ _ hM
+  obtain ⟨hmem, hsorted⟩ := search_spec p t (build p) hp hC' hM' (t.length + 1) p.length (Nat.le_refl _) (by omega)
+  apply sorted_eq_of_mem_iff _ _ hsorted (occurrences_sorted p t)
+  intro s
+  rw [hmem, mem_occurrences]
+  constructor
+  · exact fun h => h.2
+  · exact fun h => ⟨by omega, h⟩
+
 end RbV.Bom
